@@ -231,12 +231,14 @@ const (
 )
 
 func (s *session) changeStatus(stat int32) {
+	verifStatus(s, atomic.LoadInt32(&s.status), stat)
 	atomic.StoreInt32(&s.status, stat)
 }
 
 func (s *session) tryChangeStatus(to int32, fromList ...int32) (changed bool) {
 	for _, from := range fromList {
 		if atomic.CompareAndSwapInt32(&s.status, from, to) {
+			verifStatus(s, from, to)
 			return true
 		}
 	}
@@ -322,6 +324,7 @@ func (s *session) SetID(newID string) {
 	s.socket.SetID(newID)
 	hub := s.peer.sessHub
 	hub.set(s)
+	verifGate("setid.betweenSetAndDelete", s)
 	hub.delete(oldID)
 	Tracef("session changes id: %s -> %s", oldID, newID)
 }
@@ -638,6 +641,7 @@ func (s *session) Push(serviceMethod string, args interface{}, setting ...Messag
 		return stat
 	}
 
+	verifGate("push.beforeWrite", s)
 	var usedConn net.Conn
 W:
 	if usedConn, stat = s.write(output); !stat.OK() {
@@ -646,6 +650,7 @@ W:
 		}
 		return stat
 	}
+	verifGate("push.afterWrite", s)
 	if enablePrintRunLog() {
 		s.printRunLog("", time.Duration(s.timeNow()-ctx.start), nil, output, typePushLaunch)
 	}
@@ -686,6 +691,7 @@ func (s *session) AsyncCall(
 	}
 
 	seq := atomic.AddInt32(&s.seq, 1)
+	verifGate("asynccall.afterSeq", s)
 	output.SetSeq(seq)
 
 	if output.BodyCodec() == codec.NilCodecID {
@@ -720,6 +726,7 @@ func (s *session) AsyncCall(
 	defer cmd.mu.Unlock()
 
 	s.callCmdMap.Store(seq, cmd)
+	verifGate("asynccall.afterStore", s)
 
 	defer func() {
 		if p := recover(); p != nil {
@@ -732,6 +739,7 @@ func (s *session) AsyncCall(
 		cmd.done()
 		return cmd
 	}
+	verifGate("asynccall.beforeWrite", s)
 	var usedConn net.Conn
 W:
 	if usedConn, cmd.stat = s.write(output); !cmd.stat.OK() {
@@ -742,6 +750,7 @@ W:
 		return cmd
 	}
 
+	verifGate("asynccall.afterWrite", s)
 	s.peer.pluginContainer.postWriteCall(cmd)
 	return cmd
 }
@@ -772,25 +781,33 @@ func (s *session) closeLocked() error {
 	if !s.tryChangeStatus(statusActiveClosing, statusOk, statusPreparing) {
 		return nil
 	} // readDisconnected is being called
+	verifGate("close.afterCAS", s)
 	s.peer.sessHub.delete(s.ID())
 	s.notifyClosed()
+	verifGate("close.afterIndexDelete", s)
 	s.graceCtxWait()
+	verifGate("close.afterCtxWait", s)
 	s.graceCallCmdWaitGroup.Wait()
+	verifGate("close.afterCallWait", s)
 	s.changeStatus(statusActiveClosed)
 	err := s.socket.Close()
+	verifGate("close.afterSocketClose", s)
 	s.peer.pluginContainer.postDisconnect(s)
 	return err
 }
 
 func (s *session) readDisconnected(oldConn net.Conn, err error) {
+	verifGate("rd.enter", s)
 	status := s.getStatus()
 	switch status {
 	case statusPassiveClosed, statusActiveClosed, statusPassiveClosing:
 		return
 	case statusActiveClosing:
 	default:
+		verifGate("rd.beforeStatusWrite", s)
 		s.changeStatus(statusPassiveClosing)
 	}
+	verifGate("rd.afterStatusWrite", s)
 
 	s.peer.sessHub.delete(s.ID())
 
@@ -803,6 +820,7 @@ func (s *session) readDisconnected(oldConn net.Conn, err error) {
 	}
 	s.graceCtxWait()
 
+	verifGate("rd.beforeCancel", s)
 	// cancel the callCmd that is waiting for a reply
 	s.callCmdMap.Range(func(_, v interface{}) bool {
 		callCmd := v.(*callCmd)
@@ -818,7 +836,9 @@ func (s *session) readDisconnected(oldConn net.Conn, err error) {
 		return
 	}
 
+	verifGate("rd.beforeSocketClose", s)
 	s.socket.Close()
+	verifGate("rd.beforeRedial", s)
 	if !s.redialForClient(oldConn) {
 		s.changeStatus(statusPassiveClosed)
 		s.notifyClosed()
@@ -833,10 +853,12 @@ func (s *session) redialForClient(oldConn net.Conn) bool {
 	s.lock.Lock()
 	defer s.lock.Unlock()
 	// Avoid repeated calls from write and readDisconnected methods
+	verifGate("redial.afterLock", s)
 	if oldConn != s.getConn() {
 		return true
 	}
 	if s.tryChangeStatus(statusRedialing, statusOk, statusPassiveClosing, statusPassiveClosed, statusRedialFailed) {
+		verifGate("redial.afterCAS", s)
 		return s.redialForClientLocked()
 	}
 	return false
@@ -872,6 +894,7 @@ func (s *session) startReadAndHandle() {
 			return
 		}
 		err = s.socket.ReadMessage(ctx.input)
+		verifGate("read.afterMessage", s)
 		if (err != nil && ctx.GetBodyCodec() == codec.NilCodecID) || !s.goonRead() {
 			s.peer.putContext(ctx, false)
 			return
@@ -879,6 +902,7 @@ func (s *session) startReadAndHandle() {
 		if err != nil {
 			ctx.stat = statBadMessage.Copy(err)
 		}
+		verifGate("read.beforeGo", s)
 		s.graceCtxWaitGroup.Add(1)
 		if !Go(func() {
 			defer s.peer.putContext(ctx, true)
@@ -908,8 +932,10 @@ func (s *session) write(message Message) (net.Conn, *Status) {
 	default:
 	}
 
+	verifGate("write.beforeLock", s)
 	s.writeLock.Lock()
 	defer s.writeLock.Unlock()
+	verifGate("write.afterLock", s)
 
 	select {
 	case <-ctx.Done():
@@ -955,6 +981,7 @@ func (sh *SessionHub) set(sess *session) {
 	if !loaded {
 		return
 	}
+	verifGate("hub.betweenLoadAndStore", sess)
 	sh.sessions.Store(sess.ID(), sess)
 	if oldSess := _sess.(*session); sess != oldSess {
 		oldSess.Close()
